@@ -15,6 +15,7 @@ import (
 	"pgregory.net/rapid"
 
 	"verifh/ev"
+	"verifh/gen"
 	"verifh/refid"
 )
 
@@ -253,7 +254,8 @@ func genC17IP(t *rapid.T) c17IP {
 	kind := rapid.IntRange(0, 5).Draw(t, "kind")
 	if kind == 0 || kind >= 4 {
 		c.V4 = rapid.OneOf(rapid.Just([]byte{0, 0, 0, 0}), rapid.Just([]byte{255, 255, 255, 255}), rapid.Just([]byte{10, 0, 0, 1}),
-			rapid.SliceOfN(rapid.Byte(), 4, 4), rapid.SliceOfN(rapid.Byte(), 4, 4)).Draw(t, "v4")
+			rapid.SliceOfN(rapid.Byte(), 4, 4), rapid.SliceOfN(rapid.Byte(), 4, 4), rapid.Custom(func(t *rapid.T) []byte { return gen.SpecialIPv4(t, "v4s") }),
+			rapid.Custom(func(t *rapid.T) []byte { return gen.SpecialIPv4(t, "v4s") })).Draw(t, "v4")
 	}
 	if kind >= 1 {
 		c.V6 = genIPv6(t)
